@@ -238,19 +238,16 @@ Fixpoint bytes_states (fx : bool) (st : Z * list Z) (ops : list eop) : list (Z *
   end.
 
 (* ---------------- the domain of the refinement theorems (computable, so that the checker can tell) ---------------- *)
-(* a raw key that is INSERTED must be the encoding of a key of the map's key type (the code writes the caller's bytes) *)
-(* [sk] = result of the bounds-checked walk over the raw key (skip_go), [ko] = the key it decodes to (key_of_step, as a
-   thunk: it is only decoded after the walk succeeded — key_of_step uses the decoder that trusts declared lengths);
-   a separate function of these RESULTS, so that no proof has to compute with skip_go on variables *)
-Definition raw_key_judge (sk : option (list Z)) (ko : unit -> option tval) (b : list Z) : bool :=
-  match sk with
-  | Some [] => match ko tt with Some kv => bytes_eqb (encode kv) b | None => false end
-  | _ => false
-  end.
+(* a raw (binary) key that is INSERTED or UNSET must be a byte string that the proved decoder accepts completely as a key of
+   the map's key type (key_of_step walks it with bounds checks first); by ThriftCanonProofs.decode_canonical it then IS the
+   encoding of the key it denotes.  The code splices / compares the caller's bytes as they are.
+   [raw_key_judge] is a separate function of the decoding RESULT so that no proof computes with key_of_step on a raw key. *)
+Definition is_some {A} (o : option A) : bool := match o with Some _ => true | None => false end.
+Definition raw_key_judge (ko : option tval) (b : list Z) : bool := bytes_okb b && is_some ko.
 
 Definition raw_key_ok (s : pstep) (v : tval) : bool :=
   match s, v with
-  | PBinKey b, VMap kt _ _ => raw_key_judge (skip_go kt b) (fun _ => key_of_step kt s) b
+  | PBinKey b, VMap kt _ _ => raw_key_judge (key_of_step kt s) b
   | _, _ => true
   end.
 
